@@ -15,8 +15,11 @@ import (
 )
 
 // C12(b): the production StandardRoundTimer under every interleaving of its client with its background
-// goroutine (held at the hook points before each of its two selects), with ready-set analysis for the
-// select whose outcome Go chooses at random.
+// goroutine (held at the hook points before each of its two selects). Which READY case a select of the
+// background goroutine takes is a choice of the explorer too: the checks are built against a copy of
+// roundtimer.go whose selects poll their cases in a harness-chosen order first (harness/tools/selxform), so
+// both outcomes of "cancel signal and expired timer ready" or "cancel signal and new request ready" are really
+// executed. Only if that rewrite is not possible (VerifSelectCount == 0) the older ready-set analysis is used.
 
 type fixedTimeouts struct{}
 
@@ -82,6 +85,33 @@ func runTimerSchedule(prog []string, prefix []int, res *vx.Result, outcomes map[
 	ctx, cancel := context.WithCancel(context.Background())
 	defer cancel()
 	s := vx.NewThreads(ctx, prefix)
+	controlled := tmstate.VerifSelectCount > 0
+	redundantAt := -1
+	if controlled {
+		var asked struct {
+			name  string
+			first int
+		}
+		tmstate.VerifSetSelectHooks(func(name string, n int) []int {
+			c := s.Choose(name, n)
+			asked.name, asked.first = name, c
+			order := []int{c}
+			for i := 0; i < n; i++ {
+				if i != c {
+					order = append(order, i)
+				}
+			}
+			return order
+		}, func(name string, i int) {
+			if name == asked.name && i != asked.first && redundantAt < 0 {
+				// The case asked for first was not ready: this execution equals the one that asks for case i.
+				redundantAt = len(s.Points)
+			}
+			res.Count("select_case_taken:"+name+"="+fmt.Sprint(i), 1)
+		})
+		defer tmstate.VerifSetSelectHooks(func(string, int) []int { return nil }, func(string, int) {})
+	}
+
 	bgCtx := s.Adopt("bg")
 	rt := tmstate.NewStandardRoundTimer(bgCtx, fixedTimeouts{})
 
@@ -154,7 +184,10 @@ func runTimerSchedule(prog []string, prefix []int, res *vx.Result, outcomes map[
 			time.Sleep(timerDur / 2)
 			synctest.Wait()
 		}
-		if th == 0 && at == "roundtimer.running" {
+		if redundantAt >= 0 {
+			return false
+		}
+		if !controlled && th == 0 && at == "roundtimer.running" {
 			// Ready-set analysis at the entry of the running select.
 			clientInStart := opKind == "S" && s.ThreadState(1) == "blocked"
 			if clientInStart {
@@ -180,6 +213,16 @@ func runTimerSchedule(prog []string, prefix []int, res *vx.Result, outcomes map[
 	}
 	s.Run()
 	// End-state oracles.
+	if redundantAt >= 0 {
+		// Not a new behaviour: cut the recorded schedule at the redundant choice so nothing below it is expanded.
+		outcomes["redundant-select-order"]++
+		pts := s.Points[:min(redundantAt, len(s.Points))]
+		s.Stop()
+		cancel()
+		synctest.Wait()
+		rt.Wait()
+		return pts
+	}
 	if !s.Aborted {
 		if s.Deadlock != "" {
 			violate("timer-client-stuck", "client could not finish: "+s.Deadlock)
@@ -190,6 +233,8 @@ func runTimerSchedule(prog []string, prefix []int, res *vx.Result, outcomes map[
 		for i, th := range timers {
 			if th.cancelled && th.elapsedAt < 0 && closedNow(th.ch) {
 				violate("cancelled-timer-reported-elapsed", fmt.Sprintf("timer %d was cancelled and never reached its deadline, yet its elapsed channel is closed", i))
+			} else if th.cancelled && closedNow(th.ch) {
+				violate("cancelled-timer-reported-elapsed:deadline-passed-after-cancel", fmt.Sprintf("timer %d was cancelled while it had not reported anything; its deadline passed afterwards and its elapsed channel got closed", i))
 			}
 		}
 	}
@@ -217,6 +262,11 @@ func checkTimerPrograms(c *vx.Ctx) {
 	rs := c.Pool.Map(jobs)
 	var total int64
 	for i, r := range rs {
+		if r.Crash != "" {
+			// A panic of the timer's background goroutine ends the worker: for this harness it is a C12 violation
+			// (the only panic in that goroutine is "new timer requested before previous timer elapsed or was cancelled").
+			r.Viol = append(r.Viol, vx.Violation{Prop: "C12", Sig: "timer-goroutine-" + vx.CrashSig(r.Crash), Msg: "client program [" + jobs[i].Args["prog"] + "]: " + r.Crash[:min(len(r.Crash), 600)]})
+		}
 		c.Absorb(jobs[i], r, "C12")
 		total += r.Counters["schedules"]
 		c.Sample(map[string]any{"timer_client_program": jobs[i].Args["prog"], "schedules": r.Counters["schedules"], "outcomes": r.Trace})
